@@ -381,3 +381,70 @@ func VerifH_C05_ConcurrentPreemptive() {
 	}
 	verifrt.Reach("both-answered")
 }
+
+// VerifH_C05_WireIDsNeverReused: "a wire ID is never reused during a connection's life" as seen ON THE WIRE, with an
+// exchange in the mix that never gets its query out: exchange A's context is already over when it starts (or ends
+// at any later scheduling point), or its Write fails transiently (TCP: the connection stays in service); exchanges B
+// and C run concurrently with it, a pre-emption being possible before every lock / channel operation (≤ 1 deviation from round-robin, thorough ≤ 2).
+// Every query that does leave carries a wire ID no other query on this connection carries, the server answers each,
+// and every exchange that returns a message returns the reply for its own wire ID.
+func VerifH_C05_WireIDsNeverReused() {
+	verifrt.Unwind(160)
+	verifrt.SchedBound(1 + verifrt.Tier)
+	verifrt.PreemptSync()
+	verifrt.NoTimers()
+	verifrt.CtxNoExpiry = true
+	conn := newVNetConn()
+	isTCP := verifrt.Bool("tcp")
+	off := 0
+	if isTCP {
+		off = 2
+	}
+	mode := verifrt.Choose("a-fails-by", 2) // 0: context already over, 1: Write fails (TCP only)
+	if mode == 1 {
+		verifrt.Assume(isTCP)
+		conn.failMarker, conn.failOff = 1, 5
+	}
+	t := &PipelineTransport{opts: PipelineOpts{IsTCP: isTCP}}
+	c := newPipelineConn(conn, t)
+	c.nextQid = verifrt.IntRange("nextQid", 0, 65000)
+	ctxA, cancelA := verifrt.CtxWithCancel(nil)
+	if mode == 0 {
+		cancelA()
+	}
+	res := []chan vExRes{make(chan vExRes, 1), make(chan vExRes, 1), make(chan vExRes, 1)}
+	go func() { r, err := c.exchange(ctxA, vQuery12(0xA, 1)); res[0] <- vExRes{r, err} }()
+	go func() { r, err := c.exchange(context.Background(), vQuery12(0xB, 2)); res[1] <- vExRes{r, err} }()
+	go func() { r, err := c.exchange(context.Background(), vQuery12(0xC, 3)); res[2] <- vExRes{r, err} }()
+	// the server answers every query it sees, echoing wire ID and marker
+	var wire []int
+	go func() {
+		for {
+			var q []byte
+			select {
+			case q = <-conn.outbox:
+			case <-conn.closedCh:
+				return
+			}
+			wire = append(wire, int(q[off])<<8|int(q[off+1]))
+			r := []byte{q[off], q[off+1], 0x80, q[off+3], 0, 0, 0, 0, 0, 0, 0, 0}
+			if isTCP {
+				r = append([]byte{0, 12}, r...)
+			}
+			conn.inbox <- r
+		}
+	}()
+	rA, rB, rC := <-res[0], <-res[1], <-res[2]
+	verifrt.Reach("all-returned")
+	if rA.m != nil {
+		verifrt.Assert(mode == 0 && rA.err == nil && rA.m.Header.ID == 0xA && rA.m.Header.RCode == 1, "exchange A may still be answered (its query can leave before its context is looked at): then with its own reply")
+	}
+	verifrt.Assert(rB.err == nil && rB.m != nil && rB.m.Header.ID == 0xB && rB.m.Header.RCode == 2, "exchange B gets the reply to its own query")
+	verifrt.Assert(rC.err == nil && rC.m != nil && rC.m.Header.ID == 0xC && rC.m.Header.RCode == 3, "exchange C gets the reply to its own query")
+	for i := range wire {
+		for j := 0; j < i; j++ {
+			verifrt.Assert(wire[i] != wire[j], "no two queries of one connection ever carry the same wire ID")
+		}
+	}
+	_ = cancelA
+}
